@@ -203,6 +203,10 @@ def install(g, judge_ops=None, rate=0.12, cap=1500, cap_thorough=12000, illforme
     o_enc, o_impl, o_render, o_oracle = g["encode"], g["impl"], g["render"], g["oracle"]
     o_tags, o_nt, o_wx, o_gen = g["tags"], g["nontrivial"], g["wants_x"], g["gen"]
     o_shrink = g.get("shrink")
+    g["RULE"] = g.get("RULE", "") + (" + histories on living objects (harness/living.py): about one in %d of the tier-level cases is also run as "
+                                     "op ; insertEntry/deleteEntry on one of the objects ; op again [; ...] on ONE set of real objects; every step "
+                                     "is judged by the oracle on the living result and compared with the same call on fresh objects of the same "
+                                     "observable state%s" % (round(1 / rate), "; every living object must be unchanged by non-mutating and failed calls" if unchanged else ""))
     g["encode"] = lambda c, enc: encode(c, enc) if is_living(c) else o_enc(c, enc)
     g["impl"] = lambda c, *a: impl(c) if is_living(c) else o_impl(c, *a)
     g["render"] = lambda c, r, enc: render(c, r, enc) if is_living(c) else o_render(c, r, enc)
@@ -294,6 +298,8 @@ def tg_walks(rnd, all_ops, n, maxlen):
 def install_tg(g, all_ops, n=600, n_thorough=6000, maxlen=8):
     o_enc, o_impl, o_render, o_oracle = g["encode"], g["impl"], g["render"], g["oracle"]
     o_tags, o_nt, o_wx, o_gen, o_shrink = g["tags"], g["nontrivial"], g["wants_x"], g["gen"], g.get("shrink")
+    g["RULE"] = g.get("RULE", "") + (" + %d random walks (thorough %d) of addTier/removeTier/renameTier/replaceTier/validate on ONE living "
+                                     "Textgrid (harness/living.py), every step judged and compared with the same call on a fresh textgrid" % (n, n_thorough))
     g["encode"] = lambda c, enc: "skip" if is_tg_living(c) else o_enc(c, enc)
     g["impl"] = lambda c, *a: impl_tg(c) if is_tg_living(c) else o_impl(c, *a)
     g["render"] = lambda c, r, enc: "ok skip" if is_tg_living(c) else o_render(c, r, enc)
